@@ -33,6 +33,9 @@ pub struct ElfSpec {
     pub has_sections: bool,
     /// p_vaddr - p_offset of the loadable segment (0 for ordinary shared objects)
     pub bias: u64,
+    /// file offset at which the (first) loadable segment begins: 0 in ordinary images; when it is not, p_vaddr and
+    /// p_offset both move by it and `p_vaddr - p_offset` stays the link base
+    pub load_off: usize,
     pub text: Vec<u8>,
     /// which section name is the last string of `.shstrtab`: 0 `.shstrtab`, 1 `.note.gnu.build-id`, 2 `.dynstr`
     pub last_name: u8,
@@ -195,7 +198,10 @@ pub fn build(s: &ElfSpec) -> Built {
         }
     };
     if s.has_phdrs {
-        ph(&mut w, 1, 5, 0, total_guess, 0x1000);
+        // (never beyond the end of the program-header table: everything referred to by address lies behind it and has
+        // to stay inside the loadable segment)
+        let lo = s.load_off.min(phoff + nph * phsize).min(total_guess);
+        ph(&mut w, 1, 5, lo, total_guess - lo, 0x1000);
         if s.empty_note_segment {
             ph(&mut w, 4, 4, prop_off, 0, 4);
         }
@@ -313,6 +319,7 @@ pub fn gen_spec(r: &mut Rng) -> ElfSpec {
         has_phdrs,
         has_sections,
         bias: *r.pick(&[0u64, 0, 0, 0, 0x1000, 0x400000, 0x10]),
+        load_off: *Rng::new(r.0 ^ 0x9b05_688c_2b3e_6c1f).pick(&[0usize, 0, 0, 0x34, 0x40, 0xe8, 0x200]),
         text: r.bytes(tlen),
         last_name: r.below(3) as u8,
         tail: *r.pick(&[0usize, 0, 64, 5000]),
